@@ -634,6 +634,12 @@ func translate(p *model.Proc, o *sched.Outcome) *translation {
 			if s.t.can(a, c) {
 				s.diverge(a, "the code is blocked ("+r.Site+") where the model's step "+c+" is enabled")
 			}
+			if pc == "bAcquire" && tr.Diverged == "" && s.t.can(a, "dying") {
+				// the engine is closed: a token waiter must leave its wait (whatever context it has)
+				tr.Probes = append(tr.Probes, schedProbe{Idx: len(tr.Steps), Actor: a, Why: "still queued for the token after Close / model: dying enabled"})
+				tr.Steps = append(tr.Steps, fmt.Sprintf(`[%d,"dying"]`, a))
+				s.diverge(a, "the code is still queued for the token where the model's step dying is enabled (engine closed)")
+			}
 		case "quiesce":
 			if r.Obs == nil {
 				break
